@@ -197,15 +197,24 @@ theorem number_bound_needed :
 
 /-- Witness kept from the pinned tree (slice index out of range, `send_last_state_proof.rs`
 `headers[(reorg_count - 1)..=reorg_count]`): a response with the reorg section only, for a client
-without a proved state, is refused with 452 `InvalidReorgHeaders`. -/
+without a proved state, is refused with 452 `InvalidReorgHeaders`.  Since the repair of
+`check_if_response_is_matched` (C01: an empty last-N section is refused when blocks
+`[start, last)` exist) such a response reaches the slice only in the corner start = last (first
+conjunct); with blocks since the start block — the original witness, second conjunct — it is
+refused earlier, with 400 `MalformedProtocolMessage`. -/
 theorem witness_reorg_only :
     let hd (n ptd : Nat) : VH := ⟨n, n, n, n - 1, ptd, n - 1, ⟨0, n, 1000⟩, 0x20028f5c, true, true, true⟩
+    let req5 : ProveRequest := ⟨hd 5 400, ⟨5, 0, 5, 2, 0, []⟩, false, false⟩
+    let s5 : St := ⟨2, 60000, 8000, 2, [(1, .requestFirstLastStateProof ⟨hd 5 400, 0⟩ req5 0)],
+      ⟨0, hd 0 0, []⟩, []⟩
     let req : ProveRequest := ⟨hd 10 900, ⟨10, 0, 5, 2, 0, []⟩, false, false⟩
     let s : St := ⟨2, 60000, 8000, 2, [(1, .requestFirstLastStateProof ⟨hd 10 900, 0⟩ req 0)],
       ⟨0, hd 0 0, []⟩, []⟩
+    (onProof s5 1 ⟨hd 5 400, [hd 3 200, hd 4 300], false, true⟩ 5 0 [] 0 []).map (·.outcome)
+      = .ok (.ban 452) ∧
     (onProof s 1 ⟨hd 10 900, [hd 3 200, hd 4 300], false, true⟩ 5 0 [] 0 []).map (·.outcome)
-      = .ok (.ban 452) := by
-  rfl
+      = .ok (.ban 400) := by
+  refine ⟨by rfl, by rfl⟩
 
 /-- Witness kept from the pinned tree (`before_boundary_count - reorg_count` underflow): reorg
 headers which reach the difficulty boundary are refused with 452 `InvalidReorgHeaders`. -/
